@@ -45,7 +45,7 @@ HAND = {
     "<ser::flavors::Slice<'a> as ->::new": spec([
         ("- => Slice{_pl: PhantomData, cursor: as_mut_ptr(arg1), end: (as_mut_ptr(arg1) + len(arg1)), start: as_mut_ptr(arg1)}", [[]])], {}),
     "<ser::flavors::Slice<'a> as Flavor>::try_push": spec([
-        ("#1 = std::ptr::mut_ptr::<impl *mut T>::write(self.cursor, arg2); self.cursor := (self.cursor + 1) => Result::Ok(())",
+        ("*self.cursor := arg2; self.cursor := (self.cursor + 1) => Result::Ok(())",
          [[L("self.cursor - self.end", (None, -1))]]),
         ("- => Result::Err(Error::SerializeBufferFull)", [[L("self.cursor - self.end", (0, None))]])], V_CE),
     "<ser::flavors::Slice<'a> as Flavor>::try_extend": spec([
